@@ -23,6 +23,7 @@ import (
 	"fmt"
 	"math/big"
 	"net/http"
+	"reflect"
 	"strconv"
 	"strings"
 
@@ -121,7 +122,7 @@ func (c *rateCodec) Run(op string) vh.Result {
 		if !ok || len(f) != 2 {
 			return bad
 		}
-		r := protocol.AuthRequestFromHeader(c10Header(vals))
+		r := c10AuthRequestFromHeader(c10Header(vals))
 		res := vh.Result{Out: fmt.Sprintf("req rx=%d", r.Rx), NonTrivial: r.Rx != 0}
 		first := ""
 		if len(vals) > 0 {
@@ -170,7 +171,7 @@ func (c *rateCodec) Run(op string) vh.Result {
 			return vh.Result{Out: fmt.Sprintf("nvals=%d", len(vs)), Oracle: []string{"AuthRequestToHeader did not set exactly one Hysteria-CC-RX value"}}
 		}
 		res := vh.Result{Out: "reqhdr " + vh.Hex([]byte(vs[0])), NonTrivial: true}
-		if back := protocol.AuthRequestFromHeader(h); back.Rx != n {
+		if back := c10AuthRequestFromHeader(h); back.Rx != n {
 			res.Oracle = append(res.Oracle, fmt.Sprintf("request round trip: sent %d, header %q, read back %d", n, vs[0], back.Rx))
 		}
 		return res
@@ -316,4 +317,17 @@ func (c *rateCodec) Gen(r *vh.RNG, n int, emit func(op string, tags ...string)) 
 			emit("respparse "+vs, "rand")
 		}
 	}
+}
+
+// c10AuthRequestFromHeader calls protocol.AuthRequestFromHeader through reflection and keeps its FIRST result, so
+// that this binary (shared by every core property) still builds when the function grows a second result (an error):
+// a changed signature must show up as a behavioural difference in the streams, not as a build failure of all of them.
+func c10AuthRequestFromHeader(h http.Header) protocol.AuthRequest {
+	out := reflect.ValueOf(protocol.AuthRequestFromHeader).Call([]reflect.Value{reflect.ValueOf(h)})
+	if len(out) > 0 {
+		if r, ok := out[0].Interface().(protocol.AuthRequest); ok {
+			return r
+		}
+	}
+	return protocol.AuthRequest{}
 }
